@@ -428,38 +428,73 @@ def error_discipline(ctx, res):
 # C18.null-checked: a pointer that can be NULL is tested before it is used
 
 NULL_TOLERANT = {"Py_XDECREF", "Py_XINCREF", "Py_CLEAR", "PyErr_SetObject",
-                 "PyErr_Restore", "PyErr_NormalizeException"}
+                 "PyErr_Restore", "PyErr_NormalizeException",
+                 "PyCallable_Check"}
+
+
+# (PyLong_AsLong / PyCallable_Check test their argument for NULL themselves:
+# BadInternalCall -> SystemError, resp. 0)
+API_NULL_OK = {"Py_XDECREF", "Py_XINCREF", "Py_CLEAR", "PyErr_SetObject",
+               "PyErr_Restore", "PyErr_NormalizeException",
+               "PyCallable_Check", "PyLong_AsLong"}
 
 
 def _null_tolerant_params(facts, paths):
-    """(function, parameter index) pairs of in-file functions that compare
-    that parameter with NULL before doing anything else with it"""
+    """(function, parameter index) pairs of in-file functions that are safe
+    to call with NULL for that parameter: on every path, until the parameter
+    has been compared with NULL, it is only stored, compared as a pointer, or
+    handed to something that is itself NULL-tolerant (fixed point)."""
+    import re
     out = set()
-    for f, ps in paths.items():
-        if not ps:
-            continue
-        params = [q.name for q in facts.params(f)]
-        for i, q in enumerate(params):
-            ok = True
-            for p in ps:
-                tested = False
-                for it in p.trace:
-                    if it[0] == "atom" and q in it[1] and (
-                            f"(0 == {q})" in it[1] or f"({q} == 0)" in it[1]
-                            or f"(0 != {q})" in it[1] or f"({q} != 0)" in it[1]
-                            or it[1] == q):
-                        tested = True
+    changed = True
+    while changed:
+        changed = False
+        for f, ps in paths.items():
+            if not ps:
+                continue
+            params = [q.name for q in facts.params(f)]
+            for i, q in enumerate(params):
+                if (f, i) in out:
+                    continue
+                qre = re.compile(rf"\b{re.escape(q)}\b")
+                ok = True
+                used = False
+                for p in ps:
+                    for it in p.trace:
+                        if it[0] == "atom":
+                            t = it[1]
+                            if not qre.search(t):
+                                continue
+                            used = True
+                            if f"{q}->" in t or f"*{q}" in t:
+                                ok = False
+                                break
+                            if t == q or f"(0 == {q})" in t \
+                                    or f"(0 != {q})" in t \
+                                    or f"({q} == 0)" in t \
+                                    or f"({q} != 0)" in t:
+                                break       # NULL decided: rest is free
+                        elif it[0] == "call":
+                            pos = [j for j, a in enumerate(it[2]) if a == q]
+                            deref = [a for a in it[2] if a != q and (
+                                f"{q}->" in a)]
+                            if deref:
+                                ok = False
+                                break
+                            if not pos:
+                                continue
+                            used = True
+                            if it[1] in API_NULL_OK:
+                                continue
+                            if all((it[1], j) in out for j in pos):
+                                continue
+                            ok = False
+                            break
+                    if not ok:
                         break
-                    if it[0] == "call" and q in it[2] and it[1] not in (
-                            "Py_XDECREF", "Py_XINCREF"):
-                        break
-                if not tested and any(it[0] == "call" and q in it[2]
-                                      for it in p.trace):
-                    ok = False
-                    break
-            if ok and any(any(it[0] == "atom" and q in it[1]
-                              for it in p.trace) for p in ps):
-                out.add((f, i))
+                if ok and used:
+                    out.add((f, i))
+                    changed = True
     return out
 
 
@@ -572,3 +607,36 @@ def null_checked(ctx, res):
                           f"NULL dereference (crash) instead of an exception",
                           [f"{CREL}:{l}" for l in dict.fromkeys(p.lines) if l])
     res.floor(20)
+
+
+
+@rule("C18.setter-null", ["C18"],
+      "every attribute setter installed in a PyGetSetDef table copes with "
+      "deletion (`del obj.attr` calls the setter with value == NULL): the "
+      "value is compared with NULL before it is inspected")
+def setter_null(ctx, res):
+    from ..csym import cached_paths, flush_paths
+    facts = get_cfacts(ctx)
+    setters = set()
+    for d in facts.decls:
+        if d.kind == "VarDecl" and "PyGetSetDef" in (d.type or ""):
+            for x in d.walk():
+                if x.kind == "CStyleCastExpr" and (x.type or "") == "setter":
+                    for r in x.walk():
+                        if r.kind == "DeclRefExpr" \
+                                and r.refkind == "FunctionDecl":
+                            setters.add(r.ref)
+    if len(setters) < 5:
+        raise AnalysisError(f"PyGetSetDef setters not found ({setters})")
+    funcs = list(facts.defined_functions())
+    paths = {f: cached_paths(ctx, facts, f) for f in funcs}
+    flush_paths(ctx)
+    tolerant = _null_tolerant_params(facts, paths)
+    for f in sorted(setters):
+        res.instance(f, facts.loc(facts.func(f)))
+        res.oblige((f, 1) in tolerant, f"{f}:deletion", facts.loc(facts.func(f)),
+                   f"`del <object>.<attribute>` calls {f} with value == NULL, "
+                   f"and {f} inspects the value (type check, truth test, "
+                   f"conversion) without comparing it with NULL first: the "
+                   f"interpreter crashes instead of raising TypeError")
+    res.floor(5)
